@@ -1151,8 +1151,10 @@ func violatesOnlyPropertyCounts(vd *refval.Validator, s M, inst any) bool {
 		return x
 	}
 	relaxed := &refval.Validator{Components: strip(vd.Components).(M)}
-	ok, _ := relaxed.Valid(strip(s).(M), inst)
-	return ok
+	// without the counts the document is valid, or its validity is one the reference does not decide
+	// (1e21 against multipleOf 0.5): either way the counts are the only definite reason
+	ok, amb := relaxed.Valid(strip(s).(M), inst)
+	return ok || amb
 }
 
 func hasKey(s any, key string) bool {
